@@ -203,6 +203,8 @@ def r4_order(facts, rep):
 
 
 def run(fx, rep, tier):
+    from . import foundation as _fnd
+    _fnd.units(fx["dev"], rep, "C09-F", fx, tier)
     rep.assume("Rational arithmetic is exact (C01); the affine closures are straight-line code (anything else is reported as not affine)")
     facts = fx["dev"]
     r1_maps(facts, rep)
